@@ -124,9 +124,9 @@ def check(ctx, res) -> None:
                 "the comment alternative consumes a comment up to the end of its line" if okc else
                 "the comment alternative does not consume exactly one comment line")
         st = rca.build(f"(?:{gsrc['string']})|(?:{gsrc['fstring']})", erase_assertions=True)
-        bad = [p for p in sorted(tokenize._all_string_prefixes()) if p.lower() not in ("rb",) and not rca.accepts(st, p + '"NAME"')]
+        bad = [p for p in sorted(tokenize._all_string_prefixes()) if not rca.accepts(st, p + '"NAME"')]
         res.add("R02.2", "string-alternatives", not bad, "rope/refactor/occurrences.py",
-                "string / f-string alternatives consume literals with every prefix (except the rb gap recorded under C08 R08.5)" if not bad else
+                "string / f-string alternatives consume literals with every tokenizer prefix" if not bad else
                 f"literals with prefix {bad} are not consumed by the string alternatives: identifiers inside them become candidates")
         # ordered choice: a prefixed literal starts at its prefix letter
         io, is_, if_ = order.index("occurrence"), order.index("string"), order.index("fstring")
